@@ -1,4 +1,4 @@
-import PsModel.Lemmas.C09World
+import PsModel.Lemmas.C09Chan
 /-!
 # C09 – property theorems (triggers live exactly as long as their function and leave nothing behind)
 
@@ -134,15 +134,15 @@ theorem C09_regress_refinement_prefix_fragment (sub : Sub) (ops : List Op)
 and delete it.  PRE-FIX: no generation is started any more, yet `pyscript.b` still lists its queue – in both
 subsystems.  TODAY: `pyscript.b` has no subscriber left. -/
 theorem C09_regress_refinement_prefix_leak :
-    (run delContinuesPreFix .legacy [.define "file.t" "f" [[["pyscript", "a"], ["pyscript", "a", "old"], ["pyscript", "b"]]] [] [] false false,
+    (run delContinuesPreFix .legacy [.define "file.t" "f" [[["pyscript", "a"], ["pyscript", "a", "old"], ["pyscript", "b"]]] [] [] [] [] false false,
         .del "file.t" "f"]).started = [] ∧
-    subsOf (run delContinuesPreFix .legacy [.define "file.t" "f" [[["pyscript", "a"], ["pyscript", "a", "old"], ["pyscript", "b"]]] [] [] false false,
+    subsOf (run delContinuesPreFix .legacy [.define "file.t" "f" [[["pyscript", "a"], ["pyscript", "a", "old"], ["pyscript", "b"]]] [] [] [] [] false false,
         .del "file.t" "f"]).st ["pyscript", "b"] = [(0, 0)] ∧
-    subsOf (run delContinuesPreFix .new [.define "file.t" "f" [[["pyscript", "a"], ["pyscript", "a", "old"], ["pyscript", "b"]]] [] [] false false,
+    subsOf (run delContinuesPreFix .new [.define "file.t" "f" [[["pyscript", "a"], ["pyscript", "a", "old"], ["pyscript", "b"]]] [] [] [] [] false false,
         .del "file.t" "f"]).st ["pyscript", "b"] = [(0, 0)] ∧
-    subsOf (run delContinuesNow .legacy [.define "file.t" "f" [[["pyscript", "a"], ["pyscript", "a", "old"], ["pyscript", "b"]]] [] [] false false,
+    subsOf (run delContinuesNow .legacy [.define "file.t" "f" [[["pyscript", "a"], ["pyscript", "a", "old"], ["pyscript", "b"]]] [] [] [] [] false false,
         .del "file.t" "f"]).st ["pyscript", "b"] = [] ∧
-    subsOf (run delContinuesNow .new [.define "file.t" "f" [[["pyscript", "a"], ["pyscript", "a", "old"], ["pyscript", "b"]]] [] [] false false,
+    subsOf (run delContinuesNow .new [.define "file.t" "f" [[["pyscript", "a"], ["pyscript", "a", "old"], ["pyscript", "b"]]] [] [] [] [] false false,
         .del "file.t" "f"]).st ["pyscript", "b"] = [] := by
   decide
 
@@ -153,19 +153,173 @@ name has no owner, so a new claim of `file.u` succeeds.  (A concrete run of the 
 service bookkeeping is otherwise tied by correspondence – seeded change C09_2, which counts the refused claim, is
 reported by the check as `ran-inactive` / `leak:service`.) -/
 theorem C09_service_competition_witness (sub : Sub) :
-    let w1 := run delContinuesNow sub [.define "file.t" "f0" [] [] ["pyscript.shared"] false false,
-                                       .define "file.u" "f0" [] [] ["pyscript.shared"] false false]
+    let w1 := run delContinuesNow sub [.define "file.t" "f0" [] [] [] [] ["pyscript.shared"] false false,
+                                       .define "file.u" "f0" [] [] [] [] ["pyscript.shared"] false false]
     let w2 := step delContinuesNow sub w1 (.del "file.t" "f0")
-    let w3 := step delContinuesNow sub w2 (.define "file.u" "f0" [] [] ["pyscript.shared"] false false)
+    let w3 := step delContinuesNow sub w2 (.define "file.u" "f0" [] [] [] [] ["pyscript.shared"] false false)
     (svcCount w1.svc "pyscript.shared" = 1 ∧ ownerOf w1.owner "pyscript.shared" = some "file.t" ∧
       (w1.started.map (·.services)) = [["pyscript.shared"], []]) ∧
     (svcCount w2.svc "pyscript.shared" = 0 ∧ ownerOf w2.owner "pyscript.shared" = none) ∧
     (svcCount w3.svc "pyscript.shared" = 1 ∧ ownerOf w3.owner "pyscript.shared" = some "file.u") := by
   cases sub <;> decide
 
+/-! ## the notify channels (`Event`, `Mqtt`, `Webhook`) over all operation sequences -/
+
+/-- **Legacy subsystem: the three notify tables and their Home Assistant side, after ANY operation sequence.**
+`Event.notify`, `Mqtt.notify` and `Webhook.notify` hold, for every key (event type / topic / webhook id), exactly the
+queues of the started generations whose decorators name the key (`Spec.ChanTables`; started = referenced by
+`C09_refinement`), and pyscript holds exactly one bus listener / `mqtt.async_subscribe` subscription / webhook
+registration for a key that has a queue and none otherwise – subscribe on the first listener, unsubscribe on the last. -/
+theorem C09_channels_legacy (ops : List Op) (key : String) :
+    (∀ q, q ∈ evSubs (run delContinuesNow .legacy ops).ev key ↔
+        ChanTables (·.events) (run delContinuesNow .legacy ops).started key q) ∧
+    (∀ q, q ∈ evSubs (run delContinuesNow .legacy ops).mq key ↔
+        ChanTables (·.mqtts) (run delContinuesNow .legacy ops).started key q) ∧
+    (∀ q, q ∈ evSubs (run delContinuesNow .legacy ops).wh key ↔
+        ChanTables (·.hooks) (run delContinuesNow .legacy ops).started key q) ∧
+    busCount (run delContinuesNow .legacy ops).ev.bus key =
+        (if (evSubs (run delContinuesNow .legacy ops).ev key).isEmpty then 0 else 1) ∧
+    busCount (run delContinuesNow .legacy ops).mq.bus key =
+        (if (evSubs (run delContinuesNow .legacy ops).mq key).isEmpty then 0 else 1) ∧
+    busCount (run delContinuesNow .legacy ops).wh.bus key =
+        (if (evSubs (run delContinuesNow .legacy ops).wh key).isEmpty then 0 else 1) := by
+  have hx : XInv .legacy (run delContinuesNow .legacy ops) := run_xinv true .legacy ops emptyWorld (emptyWorld_inv true .legacy) (emptyWorld_xinv .legacy)
+    (fun op _ => opGood_of_cont .legacy op)
+  obtain ⟨he, heo⟩ := hx.evc.legacy rfl
+  obtain ⟨hm, hmo⟩ := hx.mqc.legacy rfl
+  obtain ⟨hw, hwo⟩ := hx.whc.legacy rfl
+  exact ⟨he key, hm key, hw key, evOK_count heo key, evOK_count hmo key, evOK_count hwo key⟩
+
+/-- **New subsystem: Home Assistant registrations after ANY operation sequence.**  Every started `@event_trigger` /
+`@mqtt_trigger` / `@webhook_trigger` holds its own registration and nothing else does: the number of bus listeners,
+MQTT subscriptions and webhook registrations per key equals the number of decorators of the started generations naming
+it (`Spec.demand`); the notify tables are not used; and a webhook id never has more than one registration (Home
+Assistant's registry is a dictionary – a function naming a registered id is refused as a whole, `hookClash`). -/
+theorem C09_channels_new (ops : List Op) (key : String) :
+    busCount (run delContinuesNow .new ops).ev.bus key = demand (·.events) (run delContinuesNow .new ops).started key ∧
+    busCount (run delContinuesNow .new ops).mq.bus key = demand (·.mqtts) (run delContinuesNow .new ops).started key ∧
+    busCount (run delContinuesNow .new ops).wh.bus key = demand (·.hooks) (run delContinuesNow .new ops).started key ∧
+    busCount (run delContinuesNow .new ops).wh.bus key ≤ 1 ∧
+    (run delContinuesNow .new ops).ev.tbl = [] ∧ (run delContinuesNow .new ops).mq.tbl = [] ∧
+    (run delContinuesNow .new ops).wh.tbl = [] := by
+  have hx : XInv .new (run delContinuesNow .new ops) := run_xinv true .new ops emptyWorld (emptyWorld_inv true .new) (emptyWorld_xinv .new)
+    (fun op _ => opGood_of_cont .new op)
+  obtain ⟨het, he⟩ := hx.evc.new rfl
+  obtain ⟨hmt, hm⟩ := hx.mqc.new rfl
+  obtain ⟨hwt, hw⟩ := hx.whc.new rfl
+  exact ⟨he key, hm key, hw key, by rw [hw key]; exact hx.hookx rfl key, het, hmt, hwt⟩
+
+/-- **Unload returns every channel and the service bookkeeping to the baseline.**  Whatever happened before, after
+`unloadAll` no event type / topic / webhook id has a queue or a Home Assistant registration left, every service count
+is zero and no service name has an owner – in both subsystems. -/
+theorem C09_unload_baseline_channels (sub : Sub) (ops : List Op) (key : String) :
+    (evSubs (run delContinuesNow sub (ops ++ [.unloadAll])).ev key = [] ∧
+      busCount (run delContinuesNow sub (ops ++ [.unloadAll])).ev.bus key = 0) ∧
+    (evSubs (run delContinuesNow sub (ops ++ [.unloadAll])).mq key = [] ∧
+      busCount (run delContinuesNow sub (ops ++ [.unloadAll])).mq.bus key = 0) ∧
+    (evSubs (run delContinuesNow sub (ops ++ [.unloadAll])).wh key = [] ∧
+      busCount (run delContinuesNow sub (ops ++ [.unloadAll])).wh.bus key = 0) ∧
+    svcCount (run delContinuesNow sub (ops ++ [.unloadAll])).svc key = 0 ∧
+    ownerOf (run delContinuesNow sub (ops ++ [.unloadAll])).owner key = none := by
+  have hx : XInv sub (run delContinuesNow sub (ops ++ [.unloadAll])) := run_xinv true sub (ops ++ [Op.unloadAll]) emptyWorld (emptyWorld_inv true sub) (emptyWorld_xinv sub)
+    (fun op _ => opGood_of_cont sub op)
+  have hst : (run delContinuesNow sub (ops ++ [.unloadAll])).started = [] := (C09_unload_baseline sub ops).1
+  have hev := hx.evc; have hmq := hx.mqc; have hwh := hx.whc
+  have hc := hx.cnt key; have hf := hx.free key
+  rw [hst] at hev hmq hwh hc hf
+  exact ⟨chanInv_baseline hev key, chanInv_baseline hmq key, chanInv_baseline hwh key, hc, hf.mpr rfl⟩
+
+/-! ## services: competition for a name, over all operation sequences and any number of contexts -/
+
+/-- **Service bookkeeping after ANY operation sequence (any number of global contexts).**
+`Function.service_cnt[n]` is exactly the number of `@service(n)` declarations of the started (= referenced, not
+refused) generations; the name has an owner in `Function.service2global_ctx` exactly while some started generation
+declares it – so when the owner's last declarer goes the name is free again –; and every started declarer lives in the
+owning context. -/
+theorem C09_service_bookkeeping (sub : Sub) (ops : List Op) (n : String) :
+    svcCount (run delContinuesNow sub ops).svc n = demand (·.services) (run delContinuesNow sub ops).started n ∧
+    (ownerOf (run delContinuesNow sub ops).owner n = none ↔ ∀ g ∈ (run delContinuesNow sub ops).started, n ∉ g.services) ∧
+    (∀ g ∈ (run delContinuesNow sub ops).started, n ∈ g.services →
+      ownerOf (run delContinuesNow sub ops).owner n = some g.ctx) := by
+  have hx : XInv sub (run delContinuesNow sub ops) := run_xinv true sub ops emptyWorld (emptyWorld_inv true sub) (emptyWorld_xinv sub)
+    (fun op _ => opGood_of_cont sub op)
+  refine ⟨hx.cnt n, ?_, fun g hg hn => hx.own g hg n hn⟩
+  rw [hx.free n]
+  constructor
+  · intro h0 g hg hn
+    have := (demand_pos_iff (·.services) n _).mpr ⟨g, hg, hn⟩
+    omega
+  · intro hno
+    cases hd : demand (·.services) (run delContinuesNow sub ops).started n with
+    | zero => rfl
+    | succ k =>
+      obtain ⟨g, hg, hn⟩ := (demand_pos_iff (·.services) n _).mp (by rw [hd]; exact Nat.succ_pos k)
+      exact absurd hn (hno g hg)
+
+/-- **A service name is owned by at most one global context**: after any operation sequence two started generations
+declaring the same name live in the same context. -/
+theorem C09_service_one_owner (sub : Sub) (ops : List Op) (n : String) (g1 g2 : Gen)
+    (h1 : g1 ∈ (run delContinuesNow sub ops).started) (h2 : g2 ∈ (run delContinuesNow sub ops).started)
+    (hn1 : n ∈ g1.services) (hn2 : n ∈ g2.services) : g1.ctx = g2.ctx := by
+  have hb := (C09_service_bookkeeping sub ops n).2.2
+  have e1 := hb g1 h1 hn1
+  have e2 := hb g2 h2 hn2
+  rw [e1] at e2
+  exact Option.some.inj e2
+
+/-- **A refused claimant changes nothing** – in ANY world (not only a reachable one): defining a function whose start
+is refused (its service name belongs to another context; new subsystem: its webhook id is registered already) leaves
+`service_cnt`, `service2global_ctx`, every subscription table, every Home Assistant registration and the
+startup/shutdown log exactly as they were. -/
+theorem C09_refused_changes_nothing (sub : Sub) (w : World) (ctx name : String) (states : List (List Var))
+    (events mqtts hooks services : List String) (su sd : Bool)
+    (h : refused sub w (mkGen w.next ctx states events mqtts hooks services su sd) = true) :
+    (applyOp sub w (.define ctx name states events mqtts hooks services su sd)).svc = w.svc ∧
+    (applyOp sub w (.define ctx name states events mqtts hooks services su sd)).owner = w.owner ∧
+    (applyOp sub w (.define ctx name states events mqtts hooks services su sd)).st = w.st ∧
+    (applyOp sub w (.define ctx name states events mqtts hooks services su sd)).ev = w.ev ∧
+    (applyOp sub w (.define ctx name states events mqtts hooks services su sd)).mq = w.mq ∧
+    (applyOp sub w (.define ctx name states events mqtts hooks services su sd)).wh = w.wh ∧
+    (applyOp sub w (.define ctx name states events mqtts hooks services su sd)).log = w.log := by
+  simp only [applyOp, effective, h, if_true, setBind, startGen, subscribe, inert, chanSub_nil, idxList]
+  simp
+
+/-- **When the last declarer is gone the name can be claimed by anybody.**  After any operation sequence, if no started
+generation declares `n` any more, the count is zero, the name has no owner, and a claim from ANY context is not
+refused on account of `n`. -/
+theorem C09_service_free_again (sub : Sub) (ops : List Op) (n : String)
+    (hgone : ∀ g ∈ (run delContinuesNow sub ops).started, n ∉ g.services) :
+    svcCount (run delContinuesNow sub ops).svc n = 0 ∧ ownerOf (run delContinuesNow sub ops).owner n = none ∧
+    ∀ (i : Nat) (ctx : String) (su sd : Bool),
+      svcRefused (run delContinuesNow sub ops) (mkGen i ctx [] [] [] [] [n] su sd) = false := by
+  obtain ⟨hc, hf, _⟩ := C09_service_bookkeeping sub ops n
+  have hnone := hf.mpr hgone
+  refine ⟨?_, hnone, ?_⟩
+  · rw [hc]
+    cases hd : demand (·.services) (run delContinuesNow sub ops).started n with
+    | zero => rfl
+    | succ k =>
+      obtain ⟨g, hg, hn⟩ := (demand_pos_iff (·.services) n _).mp (by rw [hd]; exact Nat.succ_pos k)
+      exact absurd hn (hgone g hg)
+  · intro i ctx su sd
+    simp [svcRefused, mkGen, hnone]
+
+/-- non-vacuity of `C09_service_free_again` and of the channel theorems: MQTT topics and webhook ids shared by two
+functions (legacy multiplexes: one registration, two queues; the new subsystem refuses the second function for the
+webhook id and gives every `@mqtt_trigger` its own subscription), then both deleted -/
+example :
+    let ops := [Op.define "file.t" "f0" [] [] ["t/1"] ["h1"] ["pyscript.s"] false false,
+                Op.define "file.u" "f0" [] [] ["t/1"] ["h1"] [] false false]
+    (busCount (run delContinuesNow .legacy ops).mq.bus "t/1", (evSubs (run delContinuesNow .legacy ops).mq "t/1").length,
+     busCount (run delContinuesNow .legacy ops).wh.bus "h1", (evSubs (run delContinuesNow .legacy ops).wh "h1").length) = (1, 2, 1, 2) ∧
+    (busCount (run delContinuesNow .new ops).mq.bus "t/1", busCount (run delContinuesNow .new ops).wh.bus "h1",
+     (run delContinuesNow .new ops).started.map (·.mqtts)) = (1, 1, [["t/1"], []]) ∧
+    (∀ g ∈ (run delContinuesNow .legacy (ops ++ [.del "file.t" "f0"])).started, "pyscript.s" ∉ g.services) := by
+  decide
+
 /-- non-vacuity: two functions, one redefined, one kept in a container after `del`; tables follow the survivors -/
-example : ((run delContinuesNow .legacy [.define "c" "f" [[["pyscript", "a"], ["pyscript", "a", "old"]]] ["ev"] [] false false,
-      .define "c" "g" [[["pyscript", "b"]]] [] [] false false, .put 0 "c" "g", .del "c" "g",
-      .define "c" "f" [[["pyscript", "c"]]] [] [] false false]).started.map (·.id)) = [1, 2] := by decide
+example : ((run delContinuesNow .legacy [.define "c" "f" [[["pyscript", "a"], ["pyscript", "a", "old"]]] ["ev"] [] [] [] false false,
+      .define "c" "g" [[["pyscript", "b"]]] [] [] [] [] false false, .put 0 "c" "g", .del "c" "g",
+      .define "c" "f" [[["pyscript", "c"]]] [] [] [] [] false false]).started.map (·.id)) = [1, 2] := by decide
 
 end PsModel.C09
